@@ -53,6 +53,7 @@ def calc_tidal_susceptibility_reduced(host_mass: float, target_radius: float) ->
         Tidal Susceptibility [N m]
     """
 
-    tidal_susceptibility_reduced = (3. / 2.) * G * host_mass**2 * target_radius**5
+    # (The power is taken of a float: an integer radius would be raised in wrapping 64-bit integer arithmetic.)
+    tidal_susceptibility_reduced = (3. / 2.) * G * host_mass**2 * (1. * target_radius)**5
 
     return tidal_susceptibility_reduced
